@@ -1,6 +1,8 @@
 package chain
 
 import (
+	"bytes"
+	"encoding/json"
 	"fmt"
 	"math"
 
@@ -139,7 +141,7 @@ func GenKnobsFor(r *core.Rand, replicas int, profile string) GenKnobs {
 
 // Generate implements core.Engine.
 func (e Engine) Generate(r *core.Rand, tier core.Tier) *core.Scenario {
-	profile := map[string]string{"C05": "mixed", "C15": "delegation", "C17": "registry", "C14": "registry", "C10": "extremes"}[e.Prop]
+	profile := map[string]string{"C05": "mixed", "C15": "delegation", "C17": "registry", "C14": "registry", "C10": "extremes", "C07": "mixed"}[e.Prop]
 	if profile == "" || r.Chance(1, 4) {
 		profile = []string{"mixed", "delegation", "registry", "governance", "extremes"}[r.Intn(5)]
 	}
@@ -272,5 +274,56 @@ func (e Engine) Generate(r *core.Rand, tier core.Tier) *core.Scenario {
 		}
 		sc.Ops = append(sc.Ops, core.MustJSON(Op{K: "block", Block: b}))
 	}
+	if e.Prop == "C07" {
+		addCrashOps(r, sc)
+	}
 	return sc
+}
+
+// addCrashOps inserts one to three crash ops in front of randomly chosen block ops (chain-level
+// C07). Hook-hit crashes dominate; Hit is drawn from 1..60 so that every hook of a block commit
+// (and of interleaved pruner steps) is reached, with small values favoured since a plain commit
+// has 8 (badger) or 12 (pathbadger) hits and a pruned version adds 2 or 3.
+func addCrashOps(r *core.Rand, sc *core.Scenario) {
+	var blocks []int
+	for i, raw := range sc.Ops {
+		if bytes.Contains(raw[:min(len(raw), 16)], []byte(`"k":"block"`)) {
+			blocks = append(blocks, i)
+		}
+	}
+	if len(blocks) == 0 {
+		return
+	}
+	at := map[int]*CrashOp{}
+	for i, n := 0, r.Range(1, 3); i < n; i++ {
+		c := &CrashOp{Replica: r.Intn(8), Point: "hook"}
+		if r.Chance(1, 4) {
+			c.Point = crashPoints[r.Intn(len(crashPoints))]
+		} else if r.Chance(1, 4) {
+			// Inside a Prune that runs concurrently with the block commit (one pruned version has
+			// 2 or 3 hook hits).
+			c.Point, c.PruneAt, c.Hit = "prunehook", r.Range(1, 4), r.Pick([]int{6, 3, 1})*3+r.Range(1, 3)
+		} else {
+			switch r.Intn(6) {
+			case 0:
+				c.Hit = r.Range(1, 60)
+			case 1:
+				c.Hit = r.Range(1, 24)
+			default:
+				c.Hit = r.Range(1, 12)
+			}
+			if r.Chance(1, 3) {
+				c.PruneAt = r.Range(1, 4)
+			}
+		}
+		at[blocks[r.Intn(len(blocks))]] = c
+	}
+	var ops []json.RawMessage
+	for i, raw := range sc.Ops {
+		if c := at[i]; c != nil {
+			ops = append(ops, core.MustJSON(Op{K: "crash", Crash: c}))
+		}
+		ops = append(ops, raw)
+	}
+	sc.Ops = ops
 }
